@@ -152,6 +152,7 @@ func C07(r *core.Run) {
 	ruleL5(r, a)
 	ruleL7(r)
 	ruleL8(r)
+	ruleL9(r, a)
 	rule016(r, "C07")
 	rule0210(r, "C07")
 }
@@ -631,4 +632,99 @@ func isPrivateCopy(r *core.Run, v ssa.Value, d int) bool {
 		}
 	}
 	return false
+}
+
+// ruleL9 — nothing looked up in one critical section is used in a later one.
+func ruleL9(r *core.Run, a *lockset.Analysis) {
+	r.Rule("L9", "within one function, a reference obtained while a lock is held (a map lookup, a field or element load of pointer / map / slice type executed between an acquire and an explicit, non-deferred release of that lock) is not used after the same lock has been released and acquired again: between the two critical sections the state may have changed (the bucket deleted and recreated, the upload completed), so acting on the old reference acknowledges a write into an object nobody can reach — check-then-act across a lock release. Today's tree releases explicitly in one place only (the version-id generator), which is the positive control")
+	byFn := map[*ssa.Function][]*lockset.LockOp{}
+	for _, op := range a.Ops() {
+		if fn := op.Instr.Parent(); fn != nil {
+			byFn[fn] = append(byFn[fn], op)
+		}
+	}
+	nRel, n := 0, 0
+	for fn, ops := range byFn {
+		f := fn
+		for _, rel := range ops {
+			if rel.Acquire || rel.Deferred {
+				continue
+			}
+			nRel++
+			// a later acquire of the same lock
+			var again []*lockset.LockOp
+			for _, acq := range ops {
+				if acq.Acquire && acq.Class == rel.Class && core.Reaches(rel.Instr, acq.Instr) {
+					again = append(again, acq)
+				}
+			}
+			if len(again) == 0 {
+				continue
+			}
+			// references read while the lock was held (before this release)
+			core.Instrs(f, func(in ssa.Instruction) {
+				v, ok := in.(ssa.Value)
+				if !ok || !core.Reaches(in, rel.Instr) || a.MustAt(in).Get(rel.Class) == 0 {
+					return
+				}
+				switch x := in.(type) {
+				case *ssa.Lookup:
+				case *ssa.UnOp:
+					if x.Op != token.MUL {
+						return
+					}
+					if _, isFA := x.X.(*ssa.FieldAddr); !isFA {
+						if _, isIA := x.X.(*ssa.IndexAddr); !isIA {
+							return
+						}
+					}
+				default:
+					return
+				}
+				switch v.Type().Underlying().(type) {
+				case *types.Pointer, *types.Map, *types.Slice:
+				default:
+					if tup, isT := v.Type().(*types.Tuple); !isT || tup.Len() == 0 {
+						return
+					}
+				}
+				// uses after a re-acquire
+				seen := map[ssa.Value]bool{v: true}
+				work := []ssa.Value{v}
+				for len(work) > 0 {
+					w := work[len(work)-1]
+					work = work[:len(work)-1]
+					if w.Referrers() == nil {
+						continue
+					}
+					for _, u := range *w.Referrers() {
+						switch y := u.(type) {
+						case *ssa.Phi, *ssa.Extract, *ssa.ChangeType, *ssa.MakeInterface:
+							if yv := y.(ssa.Value); !seen[yv] {
+								seen[yv] = true
+								work = append(work, yv)
+							}
+							continue
+						case *ssa.DebugRef:
+							continue
+						case *ssa.BinOp:
+							continue // comparing the reference (nil test) is not acting on it
+						}
+						for _, acq := range again {
+							if core.Reaches(acq.Instr, u) && core.Reaches(rel.Instr, acq.Instr) && !core.Reaches(u, rel.Instr) {
+								n++
+								r.Violated("L9", key(fname(r, f), "reference kept across critical sections", rel.Class, sprintf("#%d", n)), pos(r, u),
+									"a reference read under "+rel.Class+" at "+pos(r, in)+" is used after the lock was released ("+pos(r, rel.Instr)+") and taken again ("+pos(r, acq.Instr)+"): the object it points to may no longer be the one reachable under that name")
+								return
+							}
+						}
+					}
+				}
+			})
+		}
+	}
+	r.Held("L9", key("repo", "explicit releases examined"), "", sprintf("%d explicit (non-deferred) releases; %d stale uses", nRel, n))
+	if nRel < 1 {
+		r.Unresolved("L9: no explicit lock release found (the version-id generator's is the positive control)")
+	}
 }
